@@ -584,7 +584,7 @@ def triple_trees(rng, limit):
     return out
 
 
-PRE = ("function g($x, $y = 1) { return $x * 3 + $y; }\nclass K { const C = 11; public $p = 13; static function s() { return 17; } "
+PRE = ("function g($x, $y = 1) { return $x * 3 + $y; }\nfunction h2($x, $y) { return $y; }\nclass K { const C = 11; public $p = 13; static function s() { return 17; } "
        "function m() { return 19; } }\n$a = 2; $b = 3; $c = 5; $d = 7; $arr = [23, [29, 31], 37]; $o = new K();")
 POST = "echo json_encode([gettype($r), $r, $a, $b, $c, $d, $arr, $o->p]);"
 
@@ -726,6 +726,23 @@ def main(ck):
             d = pfull(t)
             cases.append({"tid": tid, "tree": t, "deco": d, "wf": True, "tight": False, "style": "full",
                           "text": render(toks(d, False)), "eval": True, "coq": True})
+        # the same source as an element of a comma list whose first element is a plain variable (echo list, array literal,
+        # call arguments: parsed through Parse(), which looks ahead for `$a, $b = ...` and re-parses): its tree must be
+        # the tree it has alone, and its value the value it has alone
+        wrapped = []
+        WRAPS = [("echo $a , \": \" , %s", False, "echo"), ("[ $a , %s ]", True, "array"), ("h2 ( $a , %s )", True, "call"),
+                 ("[ $a , $b , %s ]", True, "array3")]
+        wk = 0
+        for j, c in enumerate(cases):
+            if not c["wf"] or not c["eval"] or not c.get("coq", True) or c["style"] not in ("min", "red", "compact", "full"):
+                continue
+            if not (c["tight"] or c["style"] == "compact" or j % 9 == 0):
+                continue
+            if c["tree"][0] == "asg":
+                continue          # `$a, $x = e` is the language's multiple assignment: an assignment is not a list element
+            fmt, ev, wname = WRAPS[wk % len(WRAPS)]
+            wk += 1
+            wrapped.append({"text": fmt % c["text"], "eval": ev, "wrap_of": j, "wrap": wname})
         # companions of the raw-operand cases: the same printing with each raw operand replaced by its placeholder variable
         # (checked against model and table like every other case); the real tree of the raw case must be the companion's
         # real tree with the raw operand's own tree put back
@@ -744,6 +761,8 @@ def main(ck):
         probes += [{"text": r, "eval": False} for r in RAW]
         for a, b in SIGN_PROBES:
             probes += [{"text": a, "eval": True}, {"text": b, "eval": True}]
+        nfixed_probes = len(probes)
+        probes += wrapped
 
     ck.log("generated %d cases" % len(cases))
     outs, rc, err = run_impl(binary, cases + probes)
@@ -800,6 +819,7 @@ def main(ck):
             ck.violation("value:%s" % ops, {"case": c0, "printings": [(c["text"], o.get("val"), o.get("vout")) for c, o in lst],
                                              "clause": "value of printings differ"})
     raw_checked = 0
+    wrapped_checked = 0
     if probes:
         a, b, c = o_probes[:3]
         if (a.get("val"), a.get("vout")) != (b.get("val"), b.get("vout")):
@@ -819,6 +839,34 @@ def main(ck):
                 key = ("signed-literal-pow:" if k < SIGN_FOLD_KNOWN else "sign-fold:") + src.replace(" ", "")
                 ck.violation(key, {"case": {"text": src}, "impl_out": x, "spec_text": want, "spec_out": y,
                                    "clause": "%s must evaluate like %s" % (src, want)})
+        # comma-list wrappers
+        for w, ow in zip(probes[nfixed_probes:], o_probes[nfixed_probes:]):
+            j = w["wrap_of"]
+            c, o = cases[j], o_cases[j]
+            wrapped_checked += 1
+            ops = "".join(sorted(set(ops_of(c["tree"]))))
+            bad = None
+            if o.get("perr") or o.get("panic") or not o.get("tree"):
+                continue                      # the bare source itself is rejected: reported elsewhere
+            if ow.get("perr") or ow.get("panic") or not ow.get("tree"):
+                bad = "the source parses alone but not as an element of the list: %s" % (ow.get("perr") or ow.get("panic"))
+            else:
+                tw, tb = sexp_parse(ow["tree"]), sexp_parse(o["tree"])
+                if not (isinstance(tw, list) and tw and tw[0] == "wrap" and tw[-1] == tb):
+                    bad = "tree of the element differs from the tree of the source alone"
+                elif w["eval"] and o.get("val") == "ok" and ow.get("val") == "ok":
+                    try:
+                        vb, vw = json.loads(o["vout"]), json.loads(ow["vout"])
+                        elem = vw[1][-1] if w["wrap"].startswith("array") else vw[1]
+                        if elem != vb[1] or vw[2:6] != vb[2:6]:
+                            bad = "value of the element differs from the value of the source alone"
+                    except (ValueError, IndexError, TypeError, KeyError):
+                        pass          # json_encode gave up (INF / NAN): no value to compare
+                elif w["eval"] and (o.get("val") == "ok") != (ow.get("val") == "ok"):
+                    bad = "outcome %s alone, %s in the list" % (o.get("val"), ow.get("val"))
+            if bad:
+                ck.violation("comma-list:%s:%s" % (w["wrap"], ops), {"case": {"text": w["text"]}, "alone": c["text"], "impl_out": ow,
+                                                                    "alone_out": o, "clause": bad})
         # raw-operand cases: structure against the companion, and the wf printings must parse
         for cj, cc in enumerate(cases):
             j = cc.get("companion_of")
@@ -867,6 +915,7 @@ def main(ck):
     ck.cov["raw_operand_cases"] = sum(1 for c in cases if not c.get("coq", True))
     ck.cov["raw_operand_cases_structurally_checked"] = raw_checked
     ck.cov["sign_fold_probes"] = len(SIGN_PROBES)
+    ck.cov["comma_list_wrappers_checked"] = wrapped_checked
     ck.cov["tight_minus_cases"] = sum(1 for c in cases if c["tight"])
     ck.cov["model_unsupported"] = unsup
     ck.cov["evaluated_on_interpreter"] = valued
